@@ -189,7 +189,7 @@ def gen_names_case(seed, idx):
     fmt = gen.pick_format(r, 0.7)
     small = fmt in gen.BITMAP
     n = r.randint(2, 6)
-    items = gen.source_set(gen.rng(seed, "c10", "names", idx, "set"), n, decorate=True, dirs=r.choice([("src",), ("s p a c e",), ("src", "dé pôt/x,y")]), small=True)
+    items = gen.source_set(gen.rng(seed, "c10", "names", idx, "set"), n, decorate=True, dirs=r.choice([("src",), ("s p a c e",), ("src", "dé pôt/x,y")]), small=True, edge=0.35)
     cps_seen = {c for _, _, c in items}
     if r.random() < 0.5:  # a long sequence (glyph name > 63 characters -> hashed name)
         cps = long_sequence(r, r.randint(9, 14))
